@@ -6,7 +6,7 @@
    That rustc accepts the expansion (trait resolution, lifetimes, hygiene) cannot be modelled here; it is TESTED by compiling generated declarations. *)
 From Coq Require Import List Arith String.
 From Coq Require Import Lia.
-Require Import P.ParseModel P.ParseGrammar P.ParseProof P.ParsePrintModel P.ParsePrint P.ParseDecl P.ParseDeclGrammar P.ParseDeclProof P.ParseInterp P.ParseInterpProof P.ParseUsed P.ParseUsedProof P.ParseHeader P.ParseHeaderProof.
+Require Import P.ParseModel P.ParseGrammar P.ParseProof P.ParsePrintModel P.ParsePrint P.ParseDecl P.ParseDeclGrammar P.ParseDeclProof P.ParseInterp P.ParseInterpProof P.ParseUsed P.ParseUsedProof P.ParseHeader P.ParseHeaderProof P.ParseBody P.ParseBodyProof.
 Theorem parse_complete : forall t rest, wf t -> stop rest -> next_type (S (depth t)) (lex t ++ rest) = Ok (Some (embed t)) rest.
 Proof. exact ParseProof.parse_complete. Qed.
 (* what the templates consume of an `Option<X>` field: the base name and the wrapped type *)
@@ -197,6 +197,27 @@ Theorem diff_enum_uses_consistent : forall dedup_ty dedup_lt c gs d,
   nth_error hs 4 = Some ((TId "type" :: TId "Diff" :: TP PEq :: TId E :: nil) ++ angle (map ident_only U)) /\
   (exists w, nth_error hs 5 = Some ((TId "type" :: TId "DiffRef" :: TP PLt :: nil) ++ lt_target ++ (TP PGt :: TP PEq :: TId (E ++ "Ref")%string :: nil) ++ angle (lt_target :: map ident_only U) ++ TId "where" :: w)).
 Proof. exact ParseHeaderProof.diff_enum_uses_consistent. Qed.
+(* the generated TYPE DEFINITIONS of a struct (model P/ParseBody.v: variant lists of the two diff enums and the aliases of recurse fields, compared
+   with the real expansion token by token). (e) whenever the templates do not panic, the borrowed diff enum has the variants of the owned one under
+   the same names in the same order - one per unskipped field, plus `<field>_full` for an Option + recurse field - so the arms of the
+   generated Into impl line up *)
+Theorem diff_enum_variants_aligned : forall sn fields ds, all_some (map (field_defs sn) fields) = Some ds ->
+  map fst (flat_map fd_variants ds) = flat_map names_of fields /\ map fst (flat_map fd_ref_variants ds) = flat_map names_of fields.
+Proof. exact ParseBodyProof.variant_names. Qed.
+(* (f) these names are pairwise distinct when the field names are (also with `r#` stripped) and no field bears the name of the `_full`
+   variant of an Option + recurse field: known finding D13 stated exactly (ParseBodyProof.d13_clash is the witness) *)
+Theorem variant_names_distinct : forall fields : list field,
+  NoDup (map fname fields) -> NoDup (map (fun f => strip_raw (fname f)) fields) ->
+  (forall f g, In f fields -> In g fields -> opt_recurse g = true -> fname f <> (strip_raw (fname g) ++ "_full")%string) ->
+  NoDup (flat_map names_of fields).
+Proof. exact ParseBodyProof.variant_names_distinct. Qed.
+(* (g) the payload of a plain field is the field type as the user wrote it (print_embed through the template), the borrowed enum holds a
+   reference to it, and no alias is generated *)
+Theorem plain_payload : forall sn (gf: gfield), wf (gf_ty gf) ->
+  attrs_recurse (exp_attrs (gf_attrs gf)) = false -> attrs_collection_type (exp_attrs (gf_attrs gf)) = None ->
+  exists fd, field_defs sn (exp_field gf) = Some fd /\ fd_aliases fd = nil /\
+             fd_variants fd = (gf_name gf, lex (gf_ty gf)) :: nil /\ fd_ref_variants fd = (gf_name gf, amp_target ++ lex (gf_ty gf)) :: nil.
+Proof. exact ParseBodyProof.plain_payload. Qed.
 (* non-vacuity: the example declaration above states four requirements (T: Clone, T: Default, Vec<T>: Clone, Vec<T>: 'a), and its impl header is
    the one rustc sees. The two known gaps of the struct templates as the model shows them: ParseHeaderProof.d21_where_item_not_on_the_enum (finding D21:
    a where-clause item a field type needs is not repeated on the diff enums) and d19_bound_mentions_undeclared (finding D19). *)
@@ -230,3 +251,6 @@ Print Assumptions enum_impl_header_good.
 Print Assumptions diff_enum_params_exact.
 Print Assumptions mentioned_params_declared.
 Print Assumptions diff_enum_uses_consistent.
+Print Assumptions diff_enum_variants_aligned.
+Print Assumptions variant_names_distinct.
+Print Assumptions plain_payload.
